@@ -81,6 +81,48 @@ def run(chk) -> None:
     _r10b(chk, repo)
     _r10c(chk, repo)
     _r10d(chk, repo)
+    chk.rule("R10e", "the raw-slice lookups both template-safety filters rely on scan the whole slice list: in a `while <E> < len(S) and .. S[I] ..` scan the bounded expression E is one of the subscripted indices I")
+    _r10e(chk, repo)
+
+
+def _r10e(chk, repo) -> None:
+    """Fix discard (LintFix.get_fix_slices / has_template_conflicts) and the patch filter
+    (generate_source_patches) both ask TemplatedFile which raw slices a source range spans.  Its
+    scans have the shape ``while E < len(S) and S[I].f <op> x: advance``.  The bound is there to
+    protect the subscript: if E is not one of the subscripted indices the scan either over-runs
+    (IndexError) or stops short of the last slice -- and a template tag that is the last raw
+    slice of a file is then invisible to both filters."""
+    n = 0
+    for rel in ("src/sqlfluff/core/templaters/base.py", PATCH, "src/sqlfluff/core/rules/fix.py"):
+        m = repo.mod(rel)
+        for q, f in m.functions():
+            for w in walk_local(f):
+                if not (isinstance(w, ast.While) and isinstance(w.test, ast.BoolOp) and isinstance(w.test.op, ast.And)):
+                    continue
+                for c in w.test.values:
+                    if not (isinstance(c, ast.Compare) and len(c.ops) == 1):
+                        continue
+                    bound_e = seq = None
+                    l, r = c.left, c.comparators[0]
+                    if isinstance(c.ops[0], ast.Lt) and isinstance(r, ast.Call) and call_name(r) == "len" and r.args:
+                        bound_e, seq = l, r.args[0]
+                    elif isinstance(c.ops[0], ast.Gt) and isinstance(l, ast.Call) and call_name(l) == "len" and l.args:
+                        bound_e, seq = r, l.args[0]
+                    if bound_e is None:
+                        continue
+                    subs = [x.slice for v in w.test.values for x in ast.walk(v) if isinstance(x, ast.Subscript) and norm(x.value) == norm(seq)]
+                    if not subs:
+                        continue
+                    n += 1
+                    chk.require(
+                        any(norm(i) == norm(bound_e) for i in subs), "R10e", w,
+                        f"{q}: the scan is bounded by `{norm(bound_e)} < len({norm(seq)})` but subscripts {sorted({norm(i) for i in subs})}: the bound does not "
+                        "protect the index that is read, so the scan stops short of (or runs past) the end of the slice list; a template tag in the last raw "
+                        "slice is then missed by the template-safety filters",
+                        detail=f"{q}: scan bound matches the subscripted index ({norm(seq)})",
+                    )
+    chk.count("R10e.bounded_scans", n)
+    chk.floor("R10e.bounded_scans", 2)
 
 
 # ---------------------------------------------------------------------------
@@ -548,6 +590,18 @@ def _r10d(chk, repo) -> None:
 from ..selftest import Variant  # noqa: E402
 
 VARIANTS = [
+    Variant(
+        "raw-slice-span-stops-before-last-slice", "src/sqlfluff/core/templaters/base.py",
+        "            raw_slice_idx + slice_span < len(self.raw_sliced)\n",
+        "            raw_slice_idx + slice_span + 1 < len(self.raw_sliced)\n",
+        "R10e", "raw_slices_spanning_source_slice", "seeded C10-2: a tag that is the last raw slice of the file is overwritten by a fix",
+    ),
+    Variant(
+        "quiet-raw-slice-span-len-hoisted", "src/sqlfluff/core/templaters/base.py",
+        "        slice_span = 1\n        while (\n            raw_slice_idx + slice_span < len(self.raw_sliced)\n",
+        "        slice_span = 1\n        while (\n            len(self.raw_sliced) > raw_slice_idx + slice_span\n",
+        "QUIET", None, "bound spelled with the length on the left",
+    ),
     Variant(
         "discard-call-dropped", BASE,
         "        if not self.template_safe_fixes:\n            self.discard_unsafe_fixes(res, templated_file)\n",
